@@ -97,7 +97,7 @@ def witness_crate(d: Decl, extra_inputs=()):
             names += ['sym_lo_' + t, 'sym_hi_' + t]
     if d.family == 'string':
         names += ['sym_len_lo', 'sym_len_hi']
-    out = ['#![allow(dead_code, unused_imports, unused_variables, unused_mut, static_mut_refs, non_snake_case, clippy::all)]\n',
+    out = ['#![allow(dead_code, unused_imports, unused_variables, unused_mut, static_mut_refs, non_snake_case, overflowing_literals, clippy::all)]\n',
            'use nutype::nutype;\nuse std::convert::TryFrom;\nuse std::str::FromStr;\nuse std::borrow::Borrow;\n',
            aux.render(names, 'kani'), '\n',
            'pub mod d_%s {\n    use super::*;\n%s}\n' % (d.id, ''.join('    ' + l + '\n' for l in d.source().splitlines())),
